@@ -30,7 +30,7 @@ class C08(Prop):
         R = Rng(seed, "C08")
         cfg = {"records_max": 6, "len_max": 3000, "isn_wrap": False, "seg_pct": 80,
                "net": {"delay": 25, "lost_before": 40, "dup": 30, "dup_rto": 40, "dup_late": 40, "_D": 3}, "net_pct": 60,
-               "quic_pct": 35, "quic": {"small": True, "migrate_pct": 20, "retry_pct": 30, "zero_rtt_pct": 40, "ch_retx_pct": 25,
+               "quic_pct": 35, "quic": {"small": True, "migrate_pct": 20, "retry_pct": 30, "zero_rtt_pct": 40, "ch_retx_pct": 25, "close_pct": 60,
                                         "crypto_reorder_pct": 60, "long_ch_pct": 50,
                                         "net": {"delay": 200, "dup": 80, "lost": 30, "_D": 3}}}
         spec = gen.gen_mixed_world(R.fork("world"), cfg, nconn=R.weighted([(1, 50), (2, 35), (3, 15)]))
@@ -83,6 +83,27 @@ class C08(Prop):
         out.sample = {"seed": spec.get("seed"), "frames": n, "conns": [describe_conn(c) for c in spec["conns"]][:3]}
         if failure_class(res):
             out.count("full_run_failed")
+            # extending a capture must not take back what a shorter capture exported: the run on the full capture fails
+            # although a run on one of its prefixes exports data
+            for k in sorted(set([n - 1, n - 2, n - 3, (3 * n) // 4, n // 2]), reverse=True):
+                if k < 1:
+                    continue
+                s2 = copy.deepcopy(spec)
+                s2["faults"] = list(spec.get("faults", [])) + [{"k": "cut", "i": k}]
+                exk = world.expand(s2)
+                r = run_export(lane, s2, exk, out)
+                if failure_class(r):
+                    continue
+                try:
+                    part = self.streams_of(s2, exk, r)
+                except Exception:
+                    continue
+                if any((v[1]["c"] or v[1]["s"]) if v[0] == "tcp" else v[1] for v in part.values()):
+                    out.nontrivial = True
+                    out.violate("extension-never-retracts", "full-capture-run-fails:" + failure_class(res),
+                                "the capture cut after %d of %d packets exports data, the full capture fails\n%s" % (
+                                    k, n, failure_detail(res)))
+                    break
             return out
         try:
             full = self.streams_of(spec, ex, res)
